@@ -171,7 +171,14 @@ func judge(B, A aclgen.Observation, it *item, rs *ruleStats) (out []violation) {
 		// owner-protected
 		wasOwner := b.Perm == list.AclPermissionsOwner
 		rs.eval("owner-protected", wasOwner && x != author && changed)
-		if wasOwner && x != author && changed {
+		// the statement protects the owner from being demoted or removed by others. A change of the
+		// status label alone (e.g. an admin declining a stale join request of the account that later
+		// became owner: Active -> Declined, permissions untouched) is neither; it was reported by the
+		// first version of this rule (thorough tier only) and is a false alarm of the oracle, see DESIGN 8.7.
+		if wasOwner && x != author && changed && a.Perm == b.Perm {
+			rs.eval("owner-status-only-changed-by-other(counted)", true)
+		}
+		if wasOwner && x != author && a.Perm != b.Perm {
 			add("owner-changed-by-other", x, fmt.Sprintf("owner %s: -> %s/%s by %s (%s)", x, aclgen.PermName(a.Perm), aclgen.StatusName(a.Status), author, aRoleName))
 		}
 		// outsider-access
